@@ -6,8 +6,8 @@ import ast
 from ..report import rule
 from ..model import norm, NotConst, calls_in, stores_in, ShapeError, AnchorMissing, is_self_attr
 from ..paths import enumerate_paths, facts_at, walk_shallow, enclosing_stmt
-from ..guards import Evaluator, atom_texts, atoms_of_facts
-from .common import (where, self_call, feasible, path_nodes, subst_locals, same_function, grid, attr_stores, local_defs)
+from ..guards import conjuncts, Evaluator, atom_texts, atoms_of_facts
+from .common import (where, self_call, feasible, path_nodes, subst_locals, same_function, grid, attr_stores, local_defs, body_paths, consistent, path_value)
 from .c04 import states, terminal_values
 
 MOD = "appservice"
@@ -32,37 +32,40 @@ def r1(ctx):
         ctxcalls = [x for x in calls_in(f) if self_call(x) == "set_segmentation_context"]
         ctx.check("%s.%s:context" % (cname, mname), len(ctxcalls) == 1 and norm(ctxcalls[0].args[0]) == apdu, where(c.module, f),
                   "the PDU being sent must be made the segmentation context")
-        dm = [x for x in calls_in(f) if isinstance(x.func, ast.Name) and x.func.id == "divmod"]
-        if len(dm) != 1:
-            raise ShapeError("%s.%s: expected one divmod() computing the segment count (found %d)" % (cname, mname, len(dm)))
-        call = dm[0]
-        ctx.check("%s.%s:count-dividend" % (cname, mname), norm(call.args[0]) == "len(%s.pduData)" % apdu, where(c.module, call),
-                  "segment count must be computed from the length of the PDU's data (found %s)" % norm(call.args[0]))
-        ctx.check("%s.%s:count-stride" % (cname, mname), norm(call.args[1]) == "self.segmentSize", where(c.module, call),
-                  "segment count must divide by segmentSize, the stride get_segment() slices with (found %s)" % norm(call.args[1]))
-        st = enclosing_stmt(call)
-        ok = isinstance(st, ast.Assign) and isinstance(st.targets[0], ast.Tuple) and len(st.targets[0].elts) == 2 \
-            and norm(st.targets[0].elts[0]) == "self.segmentCount" and isinstance(st.targets[0].elts[1], ast.Name)
-        ctx.check("%s.%s:count-target" % (cname, mname), ok, where(c.module, st), "quotient must be stored in self.segmentCount, remainder in a local")
-        if ok:
-            rem = st.targets[0].elts[1].id
-            incs = [n for n in walk_shallow(f) if isinstance(n, ast.AugAssign) and norm(n.target) == "self.segmentCount"]
-            good = False
-            for inc in incs:
-                fa = facts_at(inc)
-                if isinstance(inc.op, ast.Add) and prog.try_const(c.module, inc.value) == 1 and \
-                        (rem, True) in atom_texts(fa):
-                    good = True
-            ctx.check("%s.%s:count-roundup" % (cname, mname), good and len(incs) == 1, where(c.module, st),
-                      "a partial last segment must add exactly one to the count (iff the remainder is non-zero)")
-        # empty payload -> one segment
-        ones = [s for t, s in attr_stores(f, "segmentCount") if isinstance(s, ast.Assign) and prog.try_const(c.module, s.value) == 1]
-        ok = False
-        for s in ones:
-            fa = facts_at(s)
-            if ("%s.pduData" % apdu, False) in atom_texts(fa):
-                ok = True
-        ctx.check("%s.%s:empty-is-one-segment" % (cname, mname), ok, where(c.module, f), "an empty payload must count as one segment")
+        # the number of segments is ceil(len(data) / segmentSize), and 1 for an empty payload: the value self.segmentCount
+        # holds when the count has been computed, evaluated along every path for payload lengths around the boundaries
+        evc = Evaluator(prog, c.module, c)
+        stores = [st for tgt, st in attr_stores(f, "segmentCount")]
+        if not stores:
+            raise ShapeError("%s.%s: no store into self.segmentCount" % (cname, mname))
+        last_line = max(st.lineno for st in stores)
+        cut = None
+        for st in walk_shallow(f):
+            if isinstance(st, ast.stmt) and getattr(st, "lineno", 0) > last_line and not any(st is x or any(st is y for y in ast.walk(x)) for x in stores):
+                if cut is None or st.lineno < cut.lineno:
+                    cut = st
+        bad = []
+        npts = 0
+        for size in (50, 206):
+            for length in (0, 1, size - 1, size, size + 1, 2 * size, 2 * size + 1, 5 * size - 1):
+                npts += 1
+                env0 = {"%s.pduData" % apdu: bytes(length), "self.segmentSize": size, "self.maxApduLengthAccepted": 1024, "self.ssmSAP.maxApduLengthAccepted": 1024,
+                        "self.device_info.maxApduLengthAccepted": 480, "self.device_info.maxNpduLength": 1497, "self.segmentAPDU.pduData": bytes(length)}
+                for p_ in enumerate_paths(f):
+                    kind, v = path_value(p_, evc, env0, "self.segmentCount", upto=cut)
+                    if kind in ("infeasible", "absent"):
+                        continue
+                    # the stride is the segment size in force on this path (the function may just have chosen it)
+                    k2, sz = path_value(p_, evc, env0, "self.segmentSize", upto=cut)
+                    sz = sz if k2 == "value" else size
+                    want = max(1, -(-length // sz)) if isinstance(sz, int) and sz > 0 else None
+                    if kind != "value" or v != want:
+                        item = (length, sz, str(v), want if want is not None else -1)
+                        if item not in bad:
+                            bad.append(item)
+        ctx.check("%s.%s:count=ceil(len/segmentSize)-or-1" % (cname, mname), not bad, where(c.module, stores[0]),
+                  "segment count for (payload length, segment size): %s" % "; ".join("(%s, %s) -> %s, expected %s" % b_ for b_ in bad[:4]))
+        ctx.count("count evaluations", npts)
         # divmod guarded against empty data only (segmentSize is never tested for zero: it is a configured maximum)
     c, f = _fn(ctx, "SSM", "get_segment")
     ev = Evaluator(prog, c.module, c)
@@ -378,15 +381,28 @@ def r5(ctx):
     ctx.check("SSM.fill_window:consecutive", ok, where(c.module, lp), "iteration k must send segment start+k")
     sends = [x for x in calls_in(lp) if norm(x.func) in ("self.ssmSAP.request", "self.request", "self.response")]
     ctx.check("SSM.fill_window:one-send-per-iteration", len(sends) == 1 and not facts_at(sends[0], stop=lp), where(c.module, lp), "each iteration sends exactly one segment unconditionally")
-    brk = [n for n in ast.walk(lp) if isinstance(n, ast.Break)]
-    ok = len(brk) == 1
-    if ok:
-        fa = facts_at(brk[0], stop=lp)
-        at = atom_texts(fa)
-        ok = len(at) == 1 and at[0][0].endswith(".apduMor") and at[0][1] is False
-        blk = getattr(brk[0], "_parent", None)
-        marks = [s for s in getattr(blk, "body", []) if isinstance(s, ast.Assign) and norm(s.targets[0]) == "self.sentAllSegments" and prog.try_const(c.module, s.value) is True]
-        ok = ok and len(marks) == 1
+    # per pass through the loop body: the final segment (more-follows false) ends the burst and records sentAllSegments,
+    # any other segment goes on to the next pass without recording it
+    ok = True
+    seen = {True: 0, False: 0}
+    for p_ in body_paths(lp.body):
+        if p_.term == "raise" or not consistent(p_.conds()):
+            continue
+        mor = None
+        for t_, pol_ in p_.conds():
+            for a_, ap_ in conjuncts(t_, pol_):
+                if norm(a_).endswith(".apduMor"):
+                    mor = ap_
+        marks = [n for n in path_nodes(p_) if isinstance(n, ast.Assign) and norm(n.targets[0]) == "self.sentAllSegments" and prog.try_const(c.module, n.value) is True]
+        if mor is None:
+            ok = False
+        elif mor:
+            seen[True] += 1
+            ok = ok and p_.term in (None, "continue", "fall") and not marks
+        else:
+            seen[False] += 1
+            ok = ok and p_.term in ("break", "return") and len(marks) == 1
+    ok = ok and seen[True] >= 1 and seen[False] >= 1
     ctx.check("SSM.fill_window:stops-at-last", ok, where(c.module, lp), "the burst must stop at the final segment (not apduMor) and record sentAllSegments")
     # who may call get_segment
     m = prog.module(MOD)
